@@ -21,6 +21,92 @@ def _cmp_shape(node):
     return out
 
 
+def _stmts(fn):
+    """body of a function without its docstring"""
+    body = list(fn.body)
+    if body and isinstance(body[0], ast.Expr) and isinstance(body[0].value, ast.Constant) \
+            and isinstance(body[0].value.value, str):
+        body = body[1:]
+    return body
+
+
+def _flow(stmts):
+    """flat, unambiguous rendering of a statement list: 'if <test>' ... ['else' ...] 'end', 'return <e>',
+    other statements unparsed"""
+    out = []
+    for st in stmts:
+        if isinstance(st, ast.If):
+            out.append('if ' + u(st.test))
+            out += _flow(st.body)
+            if st.orelse:
+                out.append('else')
+                out += _flow(st.orelse)
+            out.append('end')
+        elif isinstance(st, ast.Return):
+            out.append('return ' + (u(st.value) if st.value is not None else ''))
+        else:
+            out.append(u(st))
+    return out
+
+
+def _plus_chain(node):
+    """operands of `a + b + c` (source text), left to right"""
+    if isinstance(node, ast.BinOp) and isinstance(node.op, ast.Add):
+        return _plus_chain(node.left) + _plus_chain(node.right)
+    return [u(node)]
+
+
+def _qualified_names(g, names, function, context, classes):
+    """The get_qualified_names family (the `full_name` clause).  Model/Nesting.joinNames evaluates the
+    final return of AbstractNameDefinition.get_qualified_names from its operand list; everything before
+    it must be exactly the four statements the model transcribes - a further statement (e.g. a
+    conditional that drops a component which repeats the module's name) is a broken tie."""
+    gq = names.find('AbstractNameDefinition.get_qualified_names')
+    if u(gq.args) != 'self, include_module_names=False':
+        raise TieBroken('names.py: get_qualified_names signature', u(gq.args))
+    body = _stmts(gq)
+    want = ['qualified_names = self._get_qualified_names()',
+            'if qualified_names is None or not include_module_names', 'return qualified_names', 'end',
+            'module_names = self.get_root_context().string_names',
+            'if module_names is None', 'return None', 'end']
+    if not body or not isinstance(body[-1], ast.Return) or body[-1].value is None:
+        raise TieBroken('names.py: get_qualified_names does not end in a return of the joined names', u(gq))
+    if _flow(body[:-1]) != want:
+        raise TieBroken('names.py: get_qualified_names: statements before the final return are not the ones the '
+                        'model transcribes (a component may be dropped or rewritten conditionally)',
+                        '%r != %r' % (_flow(body[:-1]), want))
+    ops = _plus_chain(body[-1].value)
+    if not ops or any(o not in ('module_names', 'qualified_names') for o in ops):
+        raise TieBroken('names.py: get_qualified_names returns something else than a + chain of module_names / '
+                        'qualified_names', u(body[-1]))
+    g.define('moduleJoin', 'List String', lean_list(ops),
+             'jedi/inference/names.py:AbstractNameDefinition.get_qualified_names final `return`: operands of the + chain')
+    # the rest of the family: flat statement shapes, compared literally by Props.C18.qualified_name_shapes
+    for const, src, dotted in [
+            ('treeNameQual', names, 'AbstractTreeName._get_qualified_names'),
+            ('valueNameQual', names, 'ValueNameMixin._get_qualified_names'),
+            ('funcClassQual', function, 'FunctionAndClassBase.get_qualified_names'),
+            ('methodQual', function, 'MethodValue.get_qualified_names'),
+            ('abstractContextQual', context, 'AbstractContext.get_qualified_names'),
+            ('valueContextQual', context, 'ValueContext.get_qualified_names')]:
+        g.define(const, 'List String', lean_list(_flow(_stmts(src.find(dotted)))), '%s:%s' % (src.rel, dotted))
+    tn = _flow(_stmts(names.find('AbstractTreeName.get_qualified_names')))
+    if len(tn) < 3 or tn[0] != "import_node = self.tree_name.search_ancestor('import_name', 'import_from')" \
+            or not tn[1].startswith('if import_node is not None and ') \
+            or tn[-1] != 'return super().get_qualified_names(include_module_names)' \
+            or sum(1 for t in tn if t == 'end') != 2 or tn[-2] != 'end':
+        raise TieBroken('names.py: AbstractTreeName.get_qualified_names: outside import nodes it must delegate to '
+                        'AbstractNameDefinition.get_qualified_names', repr(tn))
+    g.define('treeNameDelegates', 'String', lean_str(tn[-1]),
+             'jedi/inference/names.py:AbstractTreeName.get_qualified_names (names outside import statements)')
+    fn = classes.find('BaseName.full_name')
+    calls = [u(n) for n in ast.walk(fn) if isinstance(n, ast.Call) and isinstance(n.func, ast.Attribute)
+             and n.func.attr == 'get_qualified_names']
+    g.define('fullNameCall', 'List String', lean_list(calls), 'jedi/api/classes.py:BaseName.full_name')
+    rets = [u(n.value) for n in ast.walk(fn) if isinstance(n, ast.Return) and n.value is not None]
+    g.define('fullNameReturns', 'List String', lean_list(rets), 'jedi/api/classes.py:BaseName.full_name')
+
+
 def generate(repo, g):
     classes = Src(repo, 'jedi/api/classes.py')
     api = Src(repo, 'jedi/api/__init__.py')
@@ -161,6 +247,8 @@ def generate(repo, g):
     if rets != ['ValueSet([self._lambda_value])']:
         raise TieBroken('function.py: LambdaName.infer no longer returns the lambda value alone', repr(rets))
 
+    _qualified_names(g, names, function, context, classes)
+
     for s, d in [(api, 'Script.get_context'), (context, 'TreeContextMixin.create_context'),
                  (context, 'TreeContextMixin.create_value'), (classes, 'BaseName.parent'),
                  (classes, 'BaseName.full_name'), (names, 'AbstractNameDefinition.get_qualified_names'),
@@ -170,5 +258,6 @@ def generate(repo, g):
                  (function, 'FunctionValue.from_context'), (function, 'FunctionMixin.name'),
                  (function, 'LambdaName.infer'), (function, 'MethodValue.name'),
                  (instance, 'BoundMethod.name'),
-                 (context, 'AbstractContext.get_qualified_names'), (putils, 'is_scope')]:
+                 (context, 'AbstractContext.get_qualified_names'), (context, 'ValueContext.get_qualified_names'),
+                 (putils, 'is_scope')]:
         g.fp(s, d)
